@@ -1,7 +1,9 @@
 /-
 C18 — source positions survive preprocessing.
 
-Property theorems only (helper lemmas: Lemmas/LineNoLemmas.lean; model: Model/LineNo.lean; spec: Spec/LineSpec.lean).
+Property theorems only (helper lemmas: Lemmas/LineNoLemmas.lean, LineNoUCN.lean, LineNoMarkers.lean — the `#line` marker list —,
+LineNoSched.lean — all processing orders —, LineNoPP.lean — origins in the expansion model; model: Model/LineNo.lean, for
+`C18_macro_origin_pp` Model/PP.lean; spec: Spec/LineSpec.lean).
 Every theorem is for ALL byte sequences / offsets / event lists; bytes are `Nat`s.
 
 What is proved, and what is not:
@@ -10,23 +12,36 @@ What is proved, and what is not:
   (`C18_line_formula`: computed + backslash-newlines before the token on its logical line = physical);
   hence equality outside the region `spliceBefore` (`C18_line_partial`, `C18_reported_partial`);
 * the full statement `C18_line_Statement` is FALSE (known finding `C18-line-after-splice`, Findings/C18.lean);
-* after a `#line`-family directive the reported line is `N + (line(tok) − line(directive))`, one more than C11 6.10.4p3
+* a `#line`-family directive applies to the lines BELOW it and to nothing else, whenever a token is processed: the reported
+  line of a token below it is `N + (line(tok) − line(directive))`, one more than C11 6.10.4p3
   (`C18_line_directive_characterised`; the full `C18_line_directive_Statement` is FALSE — known finding
-  `C18-line-directive-off-by-one`); the file name part is right for all inputs (`C18_file_directive`);
+  `C18-line-directive-off-by-one`); a token at or above the directive is not touched by it, even when it is processed after
+  it — the body of a macro defined above the directive and expanded below it — (`C18_line_directive_not_retroactive`);
+  the line and the file name reported are a function of the token's position and of the directives of the file as a
+  collection (`C18_line_directive_order_independent`, against the positional `Spec.Line.inForce`), in EVERY order in which
+  `preprocess2` can meet the tokens of a file — directives at their turn, any other token at its turn or any time later,
+  any number of times, out of a macro body (`C18_line_directive_all_schedules`); the reported line is ≥ 1
+  for every event order whenever the operands are ≥ 1 (`C18_line_directive_positional`; the code before the repair
+  reported line −8, Findings/C18.lean); the file name part is right for all inputs (`C18_file_directive`);
 * `convert_universal_chars`, the last pass before `tokenize`, moves no byte to another line (`C18_ucn_lines_kept`), so
   everything above holds for the text `tokenize` really numbers (`C18_line_final_partial`);
 * diagnostics, `.loc` and `.file` carry exactly these numbers (`C18_add_line_numbers`, `C18_diag_loc`, `C18_loc_records`),
   `__LINE__`/`__FILE__` use the outermost invocation token and synthesised tokens keep their template's line
-  (`C18_macro_origin`).
+  (`C18_macro_origin`); the same fact on the macro-expansion model of C09 (Model/PP.lean, `expand_macro` with argument
+  collection, substitution, hide sets): every token of an expansion carries the invoking token's origin line and `__LINE__`
+  expands to it (`C18_macro_origin_pp`).
 -/
 import ChibiVerif.Model.LineNo
 import ChibiVerif.Spec.LineSpec
 import ChibiVerif.Lemmas.LineNoLemmas
 import ChibiVerif.Lemmas.LineNoUCN
+import ChibiVerif.Lemmas.LineNoMarkers
+import ChibiVerif.Lemmas.LineNoPP
+import ChibiVerif.Lemmas.LineNoSched
 
 namespace ChibiVerif.Props.C18
 open ChibiVerif.LineNo
-open ChibiVerif.Spec.Line (countTerm physLine pendingSplices spliceBefore presumedLine)
+open ChibiVerif.Spec.Line (countTerm physLine pendingSplices spliceBefore presumedLine Dir inForce presumedLineAt presumedFileAt)
 
 /-- **C18 (the three phases keep the newline bookkeeping).**
     1. `remove_backslash_newline` preserves the total number of '\n';
@@ -161,13 +176,14 @@ example :
     tokenStart f 19 = true ∧ spliceBefore f 19 = false ∧ lineNoAt f 19 = 6 := by
   decide
 
-/-- **C18 (what is reported, outside both known regions).**  In a file that has met no `#line`-family directive
-    (any events before, none of them a directive), for a token / `__LINE__` invocation / `__FILE__` invocation whose
-    (outermost) token starts at file offset `off` with no splice before it on its logical line: the token's final
-    `line_no` is its physical line and its `filename` the file's name; `__LINE__` is the physical line; `__FILE__` is
-    the file's name. -/
+/-- **C18 (what is reported, outside both known regions).**  In a file none of whose `#line`-family directives processed so far
+    lies above the token (any events before; directives further down the file — e.g. read before a macro whose body holds the
+    token is expanded — are allowed), for a token / `__LINE__` invocation / `__FILE__` invocation whose (outermost) token
+    starts at file offset `off` with no splice before it on its logical line: the token's final `line_no` is its physical line
+    and its `filename` the file's name; `__LINE__` is the physical line; `__FILE__` is the file's name. -/
 theorem C18_reported_partial (bytes : List Nat) (name : String) (fileNo : Nat) (evs : List Ev) (off : Nat)
-    (hnd : ∀ e ∈ evs, e.isDir = false) (h : tokenStart bytes off = true) (hs : spliceBefore bytes off = false) :
+    (hnd : ∀ d ∈ dirsOf (sourceText bytes) evs, lineNoAt bytes off ≤ d.line)
+    (h : tokenStart bytes off = true) (hs : spliceBefore bytes off = false) :
     (runFile (sourceText bytes) (newFile name fileNo) (evs ++ [.tok (posMap bytes off)])).getLast?
         = some (.tok (physLine bytes off) name) ∧
     (runFile (sourceText bytes) (newFile name fileNo) (evs ++ [.lineMac (posMap bytes off)])).getLast?
@@ -175,32 +191,48 @@ theorem C18_reported_partial (bytes : List Nat) (name : String) (fileNo : Nat) (
     (runFile (sourceText bytes) (newFile name fileNo) (evs ++ [.fileMac (posMap bytes off)])).getLast?
         = some (.file name) := by
   have hl : lineNoOf (sourceText bytes) (posMap bytes off) = physLine bytes off := C18_line_partial bytes off h hs
-  simp only [runFile_append, stateAfter_noDir _ _ _ hnd]
-  simp [runFile, newFile, passThroughF, finalize, hl]
+  have hd := deltaAt_stateAfter_below (sourceText bytes) (newFile name fileNo) evs _ hnd
+  have hn := nameAt_stateAfter_below (sourceText bytes) (newFile name fileNo) evs _ hnd
+  unfold lineNoAt at hd hn
+  rw [runFile_last_tok, runFile_last_lineMac, runFile_last_fileMac, hd, hn, hl]
+  simp [deltaAt, nameAt, newFile, lineMarkerAt]
 
 /-- non-vacuity: `a\⏎b⏎c⏎`, events `a`, `__LINE__` at `b`… then `c` (offset 5, physical line 3) -/
 example : (runFile (sourceText [97, 92, 10, 98, 10, 99, 10]) (newFile "t.c" 1)
     ([.tok 0, .lineMac 1] ++ [.tok (posMap [97, 92, 10, 98, 10, 99, 10] 5)])).getLast? = some (.tok 3 "t.c") := by
   decide
 
-/-- the full statement for `#line`: a token after `#line N ["name"]` (no further directive in between) is reported
+/-- non-vacuity with a directive processed BEFORE the token that lies BELOW it: `m⏎#line 9⏎u⏎` — the token `m` (offset 0,
+    line 1: a macro body) is passed on after `#line 9` (line 2) was read, and is still reported on line 1 -/
+example :
+    let b := [109, 10, 35, 108, 105, 110, 101, 32, 57, 10, 117, 10]
+    (∀ d ∈ dirsOf (sourceText b) [.lineDir (posMap b 2) 9 none, .tok (posMap b 10)], lineNoAt b 0 ≤ d.line) ∧
+    runFile (sourceText b) (newFile "t.c" 1) ([.lineDir (posMap b 2) 9 none, .tok (posMap b 10)] ++ [.tok (posMap b 0)])
+      = [.tok 10 "t.c", .tok 1 "t.c"] := by
+  decide
+
+/-- the full statement for `#line`: a token below `#line N ["name"]` (no further directive above the token) is reported
     on presumed line `N + (physLine tok − physLine directive − 1)` (C11 6.10.4p3) under the directive's file name.
     FALSE — Findings/C18.lean. -/
 def C18_line_directive_Statement : Prop :=
   ∀ (bytes : List Nat) (f : File) (pre post : List Ev) (d : Nat) (n : Int) (name : Option String) (off : Nat),
-    (∀ e ∈ post, e.isDir = false) → tokenStart bytes off = true → tokenStart bytes d = true →
+    (∀ x ∈ dirsOf (sourceText bytes) post, lineNoAt bytes off ≤ x.line) → lineNoAt bytes d < lineNoAt bytes off →
+    tokenStart bytes off = true → tokenStart bytes d = true →
     spliceBefore bytes off = false → spliceBefore bytes d = false →
     (runFile (sourceText bytes) f (pre ++ .lineDir (posMap bytes d) n name :: post ++ [.tok (posMap bytes off)])).getLast?
       = some (.tok (presumedLine n (physLine bytes off) (physLine bytes d))
                    (name.getD (stateAfter (sourceText bytes) f pre).displayName))
 
-/-- **C18 (`#line` arithmetic, exact).**  After a directive `#line N`, `#line N "name"` or `# N "name"` whose `#` is at
-    offset `d`, with no further directive before the token at `off`: the token's final line and `__LINE__` are
-    `N + (computed line of the token − computed line of the directive)`; outside the splice region that is
-    `N + (physLine tok − physLine directive)` = the C11 presumed line **plus one**.  Whatever happened before the
-    directive (`pre`, earlier directives included) has no influence. -/
+/-- **C18 (`#line` arithmetic, exact).**  A directive `#line N`, `#line N "name"` or `# N "name"` whose `#` is at offset `d`,
+    and a token at `off` BELOW it (`habove`), processed at any later time, such that no directive processed in between lies
+    above the token (`hpost`: directives further down the file may have been read already): the token's final line and
+    `__LINE__` are `N + (computed line of the token − computed line of the directive)`; outside the splice region that is
+    `N + (physLine tok − physLine directive)` = the C11 presumed line **plus one**, and "below" is below physically.
+    Whatever happened before the directive (`pre`, earlier directives included) has no influence. -/
 theorem C18_line_directive_characterised (bytes : List Nat) (f : File) (pre post : List Ev) (d : Nat) (n : Int)
-    (name : Option String) (off : Nat) (hnd : ∀ e ∈ post, e.isDir = false) :
+    (name : Option String) (off : Nat)
+    (hpost : ∀ x ∈ dirsOf (sourceText bytes) post, lineNoAt bytes off ≤ x.line)
+    (habove : lineNoAt bytes d < lineNoAt bytes off) :
     let text := sourceText bytes
     let disp := name.getD (stateAfter text f pre).displayName
     ((runFile text f (pre ++ .lineDir (posMap bytes d) n name :: post ++ [.tok (posMap bytes off)])).getLast?
@@ -210,46 +242,202 @@ theorem C18_line_directive_characterised (bytes : List Nat) (f : File) (pre post
     (tokenStart bytes off = true → tokenStart bytes d = true →
       spliceBefore bytes off = false → spliceBefore bytes d = false →
       n + ((lineNoAt bytes off : Int) - (lineNoAt bytes d : Int))
-        = presumedLine n (physLine bytes off) (physLine bytes d) + 1) := by
+        = presumedLine n (physLine bytes off) (physLine bytes d) + 1 ∧
+      physLine bytes d < physLine bytes off) := by
   intro text disp
+  have e1 : ∀ e : Ev, pre ++ Ev.lineDir (posMap bytes d) n name :: post ++ [e]
+      = (pre ++ Ev.lineDir (posMap bytes d) n name :: post) ++ [e] := by intro e; simp
+  have hD := deltaAt_stateAfter_below text (readLineMarker (stateAfter text f pre) (lineNoOf text (posMap bytes d)) n name)
+    post _ hpost
+  have hN := nameAt_stateAfter_below text (readLineMarker (stateAfter text f pre) (lineNoOf text (posMap bytes d)) n name)
+    post _ hpost
   refine ⟨⟨?_, ?_⟩, ?_⟩
-  · have e : pre ++ Ev.lineDir (posMap bytes d) n name :: post ++ [Ev.tok (posMap bytes off)]
-        = pre ++ ([Ev.lineDir (posMap bytes d) n name] ++ (post ++ [Ev.tok (posMap bytes off)])) := by simp
-    rw [e, runFile_append, runFile_append, runFile_append]
-    simp only [stateAfter_noDir _ _ _ hnd, stateAfter, runFile, List.nil_append]
-    simp [readLineMarker, passThroughF, finalize, lineNoAt, text, disp]
+  · rw [e1, runFile_last_tok, stateAfter_dir]
+    unfold lineNoAt at hD hN habove
+    rw [hD, hN, deltaAt_read_above _ _ _ _ _ habove, nameAt_read_above _ _ _ _ _ habove]
+    simp only [lineNoAt, text, disp, Option.some.injEq, Out.tok.injEq, and_true]
     omega
-  · have e : pre ++ Ev.lineDir (posMap bytes d) n name :: post ++ [Ev.lineMac (posMap bytes off)]
-        = pre ++ ([Ev.lineDir (posMap bytes d) n name] ++ (post ++ [Ev.lineMac (posMap bytes off)])) := by simp
-    rw [e, runFile_append, runFile_append, runFile_append]
-    simp only [stateAfter_noDir _ _ _ hnd, stateAfter, runFile, List.nil_append]
-    simp [readLineMarker, lineNoAt, text]
+  · rw [e1, runFile_last_lineMac, stateAfter_dir]
+    unfold lineNoAt at hD habove
+    rw [hD, deltaAt_read_above _ _ _ _ _ habove]
+    simp only [lineNoAt, text, Option.some.injEq, Out.line.injEq]
     omega
   · intro h1 h2 h3 h4
-    rw [C18_line_partial bytes off h1 h3, C18_line_partial bytes d h2 h4]
-    unfold presumedLine; omega
+    rw [C18_line_partial bytes off h1 h3, C18_line_partial bytes d h2 h4] at habove ⊢
+    unfold presumedLine
+    exact ⟨by omega, habove⟩
 
 /-- non-vacuity: `#line 100⏎x⏎`: `x` (offset 10) is reported on line 101 = presumed line 100, plus one -/
 example : (runFile (sourceText [35, 108, 105, 110, 101, 32, 49, 48, 48, 10, 120, 10]) (newFile "t.c" 1)
       ([] ++ .lineDir (posMap [35, 108, 105, 110, 101, 32, 49, 48, 48, 10, 120, 10] 0) 100 none :: []
         ++ [.tok (posMap [35, 108, 105, 110, 101, 32, 49, 48, 48, 10, 120, 10] 10)])).getLast?
-    = some (.tok 101 "t.c") ∧ presumedLine 100 2 1 = 100 := by
+    = some (.tok 101 "t.c") ∧ presumedLine 100 2 1 = 100 ∧
+    lineNoAt [35, 108, 105, 110, 101, 32, 49, 48, 48, 10, 120, 10] 0 < lineNoAt [35, 108, 105, 110, 101, 32, 49, 48, 48, 10, 120, 10] 10 := by
   decide
 
-/-- **C18 (`__FILE__` and the token's `filename` after a directive, all inputs).**  After `#line N "name"` / `# N "name"`
-    they are `name`; after `#line N` they are whatever they were before the directive. -/
-theorem C18_file_directive (text : List Nat) (f : File) (pre post : List Ev) (d : Nat) (n : Int)
-    (name : Option String) (off : Nat) (hnd : ∀ e ∈ post, e.isDir = false) :
+/-- **C18 (`#line` is not retroactive).**  A directive has no influence on a token that lies AT OR ABOVE it in the file
+    (`hnot`), whenever that token is processed — in particular a token of a macro body defined above the directive and
+    expanded below it (`post` then holds whatever was processed in between; its directives lie below the token too): the
+    token's final line and file name, `__LINE__` and `__FILE__` are what they are without the directive.
+    (The code before the repair applied the delta of the directive read last to every token passed on afterwards:
+    Findings/C18.lean, `C18_fixed_line_directive_retroactive`.) -/
+theorem C18_line_directive_not_retroactive (text : List Nat) (f : File) (pre post : List Ev) (d : Nat) (n : Int)
+    (name : Option String) (off : Nat)
+    (hpost : ∀ x ∈ dirsOf text post, lineNoOf text off ≤ x.line)
+    (hnot : lineNoOf text off ≤ lineNoOf text d) :
+    (runFile text f (pre ++ .lineDir d n name :: post ++ [.tok off])).getLast?
+      = (runFile text f (pre ++ post ++ [.tok off])).getLast? ∧
+    (runFile text f (pre ++ .lineDir d n name :: post ++ [.lineMac off])).getLast?
+      = (runFile text f (pre ++ post ++ [.lineMac off])).getLast? ∧
     (runFile text f (pre ++ .lineDir d n name :: post ++ [.fileMac off])).getLast?
-      = some (.file (name.getD (stateAfter text f pre).displayName)) := by
-  have e : pre ++ Ev.lineDir d n name :: post ++ [Ev.fileMac off]
-      = pre ++ ([Ev.lineDir d n name] ++ (post ++ [Ev.fileMac off])) := by simp
-  rw [e, runFile_append, runFile_append, runFile_append]
-  simp only [stateAfter_noDir _ _ _ hnd, stateAfter, runFile, List.nil_append]
-  simp [readLineMarker]
+      = (runFile text f (pre ++ post ++ [.fileMac off])).getLast? := by
+  have e1 : ∀ e : Ev, pre ++ Ev.lineDir d n name :: post ++ [e] = (pre ++ Ev.lineDir d n name :: post) ++ [e] := by
+    intro e; simp
+  have hD := deltaAt_stateAfter_below text (readLineMarker (stateAfter text f pre) (lineNoOf text d) n name) post _ hpost
+  have hN := nameAt_stateAfter_below text (readLineMarker (stateAfter text f pre) (lineNoOf text d) n name) post _ hpost
+  have hD' := deltaAt_stateAfter_below text (stateAfter text f pre) post _ hpost
+  have hN' := nameAt_stateAfter_below text (stateAfter text f pre) post _ hpost
+  rw [deltaAt_read_below _ _ _ _ _ hnot] at hD
+  rw [nameAt_read_below _ _ _ _ _ hnot] at hN
+  refine ⟨?_, ?_, ?_⟩
+  · rw [e1, runFile_last_tok, runFile_last_tok, stateAfter_dir, stateAfter_append, hD, hN, hD', hN']
+  · rw [e1, runFile_last_lineMac, runFile_last_lineMac, stateAfter_dir, stateAfter_append, hD, hD']
+  · rw [e1, runFile_last_fileMac, runFile_last_fileMac, stateAfter_dir, stateAfter_append, hN, hN']
 
-example : (runFile [] (newFile "t.c" 1) ([.tok 0] ++ .lineDir 0 7 (some "foo.c") :: [.tok 0] ++ [.fileMac 0])).getLast?
-    = some (.file "foo.c") := by decide
+/-- non-vacuity — the input of the repaired defect: `#define RET return 0;` on line 1, `#line 1` on line 10,
+    `int main(void) { RET }` on line 11.  The body token `return` (offset 12, line 1) is passed on after the directive
+    (offset 30) and the token `int` (offset 38, line 11 → reported 2) were processed; it is reported on line 1. -/
+example :
+    let t := [35, 100, 101, 102, 105, 110, 101, 32, 82, 69, 84, 32, 114, 101, 116, 117, 114, 110, 32, 48, 59, 10,
+              10, 10, 10, 10, 10, 10, 10, 10, 35, 108, 105, 110, 101, 32, 49, 10,
+              105, 110, 116, 32, 109, 97, 105, 110, 40, 118, 111, 105, 100, 41, 32, 123, 32, 82, 69, 84, 32, 125, 10]
+    lineNoOf t 12 ≤ lineNoOf t 30 ∧ (∀ x ∈ dirsOf t [.tok 38], lineNoOf t 12 ≤ x.line) ∧
+    runFile t (newFile "t.c" 1) ([] ++ .lineDir 30 1 none :: [.tok 38] ++ [.tok 12]) = [.tok 2 "t.c", .tok 1 "t.c"] := by
+  decide
+
+/-- **C18 (`#line`: position decides, not processing order).**  `pre` is whatever `preprocess2` met in the file so far, `later`
+    any directives of the file it has not met yet.  If the directives, taken together, are in ascending order of line (a file is
+    read from top to bottom) and those not yet met lie at or below the token's line (a token is never passed on before the
+    directives above it were read — a macro is expanded below its definition), then what is reported for the token, `__LINE__`
+    and `__FILE__` is a function of the token's line and of ALL the directives of the file as a collection
+    (`Spec.Line.inForce`: the directive furthest down among those strictly above the line; for the name, among those that
+    carry a name): the same answer whether the token is passed on right away or after any number of later directives.
+    The line is the C11 presumed line, plus one wherever a directive is in force (the known off-by-one); the name is the
+    C11 presumed file name. -/
+theorem C18_line_directive_order_independent (text : List Nat) (name : String) (fileNo : Nat) (pre : List Ev)
+    (later : List Dir) (off : Nat)
+    (hasc : (dirsOf text pre ++ later).Pairwise (fun a c => a.line < c.line))
+    (hlater : ∀ d ∈ later, lineNoOf text off ≤ d.line) :
+    let dirs := dirsOf text pre ++ later
+    let l := lineNoOf text off
+    let line : Int := presumedLineAt dirs l + (if (inForce dirs l).isSome then 1 else 0)
+    (runFile text (newFile name fileNo) (pre ++ [.tok off])).getLast? = some (.tok line (presumedFileAt name dirs l)) ∧
+    (runFile text (newFile name fileNo) (pre ++ [.lineMac off])).getLast? = some (.line line) ∧
+    (runFile text (newFile name fileNo) (pre ++ [.fileMac off])).getLast? = some (.file (presumedFileAt name dirs l)) := by
+  intro dirs l line
+  have hm := markerAt_positional name fileNo (dirsOf text pre) later l hasc hlater
+  have hline : (l : Int) + deltaSpec dirs l = line := reportedLineAt_eq dirs l
+  rw [runFile_last_tok, runFile_last_lineMac, runFile_last_fileMac, stateAfter_eq_pushDirs, hm.1, hm.2, hline]
+  exact ⟨rfl, rfl, rfl⟩
+
+/-- non-vacuity: three directives on lines 2, 5 and 8 (the middle one without a name) of a 9-line text; the probe on line 6 is
+    processed when only the first two were read (`later` = the third), the probe on line 1 after all three were read
+    (`later` = []).  Line 6: directive on line 5 in force, `50 + (6 − 5)`, name inherited from line 2.  Line 1: none. -/
+example :
+    let t := [10, 10, 10, 10, 10, 10, 10, 10, 10]
+    let pre := [Ev.lineDir 1 20 (some "a.c"), Ev.lineDir 4 50 none]
+    (dirsOf t pre ++ [(⟨8, 70, some "b.c"⟩ : Dir)]).Pairwise (fun a c => a.line < c.line) ∧
+    (runFile t (newFile "t.c" 1) (pre ++ [.tok 5])).getLast? = some (.tok 51 "a.c") ∧
+    presumedLineAt (dirsOf t pre ++ [⟨8, 70, some "b.c"⟩]) 6 = 50 ∧
+    presumedFileAt "t.c" (dirsOf t pre ++ [⟨8, 70, some "b.c"⟩]) 6 = "a.c" ∧
+    (runFile t (newFile "t.c" 1) (pre ++ [Ev.lineDir 7 70 (some "b.c")] ++ [.tok 0])).getLast? = some (.tok 1 "t.c") := by
+  decide
+
+/-- **C18 (`#line`, all processing orders).**  `items` are the things of one file in file order (`FileOrder`: lines do not
+    decrease and a directive has its lines to itself).  `preprocess2` obeys a directive at its turn; any other token it passes on
+    at its turn, or keeps in a macro body and passes on later — any number of times, at any later moment, also after the end of
+    the file (`Sched`).  In EVERY such order and for every token, `__LINE__` and `__FILE__` met, what is reported is the value of
+    the positional specification over ALL directives of the file: the directive furthest down among those strictly above the
+    token's line decides the line (C11 presumed line, plus the known one), the one furthest down among those that carry a name
+    decides the file name.  No hypothesis about the order is left: ascending directives and "directives above a token are read
+    before it" are consequences of how the file is walked. -/
+theorem C18_line_directive_all_schedules (text : List Nat) (name : String) (fileNo : Nat) (items evs : List Ev)
+    (hord : FileOrder text items) (hs : Sched items [] evs)
+    (pre : List Ev) (e : Ev) (post : List Ev) (hsplit : evs = pre ++ e :: post) (he : e.isDir = false) :
+    (runFile text (newFile name fileNo) (pre ++ [e])).getLast? = some (specOut text name (dirsOf text items) e) := by
+  have := sched_positional text name fileNo items [] evs hs [] [] rfl (by intro b hb; simp at hb) (by simpa using hord)
+    pre e post hsplit he
+  simpa using this
+
+/-- non-vacuity: a 4-line text; items: a token on line 1 (kept in a macro body), `#line 9 "g.c"` on line 2, a token on line 3,
+    `#line 40` on line 4.  One schedule: the directive, the token of line 3, the second directive, and only then the body token
+    of line 1.  The token of line 3 is reported on line 10 of "g.c" (9 + (3 − 2)), the body token on line 1 of "t.c". -/
+example :
+    let t := [10, 10, 10, 10]
+    let items := [Ev.tok 0, .lineDir 1 9 (some "g.c"), .tok 2, .lineDir 3 40 none]
+    let evs := [Ev.lineDir 1 9 (some "g.c"), .tok 2, .lineDir 3 40 none, .tok 0]
+    FileOrder t items ∧ Sched items [] evs ∧
+    specOut t "t.c" (dirsOf t items) (.tok 2) = .tok 10 "g.c" ∧ specOut t "t.c" (dirsOf t items) (.tok 0) = .tok 1 "t.c" ∧
+    runFile t (newFile "t.c" 1) evs = [.tok 10 "g.c", .tok 1 "t.c"] := by
+  refine ⟨by decide, ?_, by decide, by decide, by decide⟩
+  exact Sched.store _ _ _ _ rfl (Sched.now _ _ _ _ (Sched.now _ _ _ _ (Sched.now _ _ _ _
+    (Sched.expand _ _ _ _ (by simp) (Sched.done _)))))
+
+/-- **C18 (`#line`: the reported line is a line number, for every processing order).**  For every text, every file, every
+    list of events in ANY order — any number of directives, tokens passed on before or after directives that lie above or
+    below them (macro bodies defined above a directive and expanded below it included) — if every directive operand is ≥ 1
+    then every token's final `line_no` (the number in `.loc` and in diagnostics) and every value of `__LINE__` is ≥ 1.
+    (The code before the repair produced `.loc 1 -8`, which the assembler rejects: Findings/C18.lean.)
+    Also for a single token of any file table: with markers whose operands were ≥ 1, `.loc` and the diagnostic prefix carry
+    a line ≥ 1. -/
+theorem C18_line_directive_positional (text : List Nat) (name : String) (fileNo : Nat) (evs : List Ev)
+    (hops : ∀ off n nm, Ev.lineDir off n nm ∈ evs → 1 ≤ n) :
+    (∀ l nm, Out.tok l nm ∈ runFile text (newFile name fileNo) evs → 1 ≤ l) ∧
+    (∀ v, Out.line v ∈ runFile text (newFile name fileNo) evs → 1 ≤ v) ∧
+    (∀ (fs : Files) (t : TokInfo), MarkersPositive (getFile fs t.file) → 1 ≤ t.lineNo →
+        1 ≤ (locRecord fs (finalize (passThrough fs t))).2 ∧ 1 ≤ (diagPrefix fs (finalize (passThrough fs t))).2) := by
+  have hops' : ∀ e ∈ evs, e.operandOK = true := by
+    intro e he
+    cases e with
+    | lineDir off n nm => simpa [Ev.operandOK] using hops off n nm he
+    | _ => rfl
+  have key := runFile_positive text (newFile name fileNo) evs (markersPositive_new name fileNo) hops'
+  refine ⟨fun l nm h => key _ h l rfl, fun v h => key _ h v rfl, fun fs t hm hl => ?_⟩
+  have := deltaAt_positive (getFile fs t.file) hm t.lineNo hl
+  exact ⟨this, this⟩
+
+/-- non-vacuity: the events of the repaired defect (directive on line 10 with operand 1, then a token on line 11, then the
+    macro-body token of line 1): reported lines 2 and 1 -/
+example :
+    let t := List.replicate 12 10
+    (∀ off n nm, Ev.lineDir off n nm ∈ [Ev.lineDir 9 1 none, .tok 10, .tok 0, .lineMac 10] → 1 ≤ n) ∧
+    runFile t (newFile "t.c" 1) [.lineDir 9 1 none, .tok 10, .tok 0, .lineMac 10] = [.tok 2 "t.c", .tok 1 "t.c", .line 2] := by
+  refine ⟨?_, by decide⟩
+  intro off n nm h
+  simp at h
+  omega
+
+/-- **C18 (`__FILE__` and the token's `filename` below a directive, all inputs).**  Below `#line N "name"` / `# N "name"`
+    (`habove`; nothing processed in between lies above the token, `hpost`) they are `name`; below `#line N` they are whatever
+    the display name was when the directive was read. -/
+theorem C18_file_directive (text : List Nat) (f : File) (pre post : List Ev) (d : Nat) (n : Int)
+    (name : Option String) (off : Nat)
+    (hpost : ∀ x ∈ dirsOf text post, lineNoOf text off ≤ x.line) (habove : lineNoOf text d < lineNoOf text off) :
+    (runFile text f (pre ++ .lineDir d n name :: post ++ [.fileMac off])).getLast?
+      = some (.file (name.getD (stateAfter text f pre).displayName)) ∧
+    ∃ l, (runFile text f (pre ++ .lineDir d n name :: post ++ [.tok off])).getLast?
+      = some (.tok l (name.getD (stateAfter text f pre).displayName)) := by
+  have e1 : ∀ e : Ev, pre ++ Ev.lineDir d n name :: post ++ [e] = (pre ++ Ev.lineDir d n name :: post) ++ [e] := by
+    intro e; simp
+  have hN := nameAt_stateAfter_below text (readLineMarker (stateAfter text f pre) (lineNoOf text d) n name) post _ hpost
+  rw [nameAt_read_above _ _ _ _ _ habove] at hN
+  refine ⟨?_, ?_⟩
+  · rw [e1, runFile_last_fileMac, stateAfter_dir, hN]
+  · rw [e1, runFile_last_tok, stateAfter_dir, hN]
+    exact ⟨_, rfl⟩
+
+example : (runFile [10, 10, 10] (newFile "t.c" 1) ([.tok 0] ++ .lineDir 1 7 (some "foo.c") :: [.tok 2] ++ [.fileMac 2])).getLast?
+    = some (.file "foo.c") ∧ lineNoOf [10, 10, 10] 1 < lineNoOf [10, 10, 10] 2 := by decide
 
 /-- **C18 (`add_line_numbers`).**  For a token list in text order that ends with the EOF token at the terminator
     (how `tokenize` builds it), the loop never dereferences an exhausted list and gives every token
@@ -269,7 +457,7 @@ theorem C18_diag_loc :
     (∀ (text : List Nat) (loc : Nat), errorAtLine text loc = lineNoOf text loc) ∧
     (∀ (fs : Files) (t : TokInfo),
         diagPrefix fs (finalize (passThrough fs t))
-          = ((getFile fs t.file).name, t.lineNo + (getFile fs t.file).lineDelta)) ∧
+          = ((getFile fs t.file).name, t.lineNo + deltaAt (getFile fs t.file) t.lineNo)) ∧
     (∀ (text : List Nat) (loc : Nat),
         lineNoOf text (shownStart text loc) = lineNoOf text loc ∧ shownStart text loc ≤ loc ∧
         (shownStart text loc = 0 ∨ text[shownStart text loc - 1]? = some LF)) :=
@@ -283,7 +471,7 @@ theorem C18_diag_loc :
 theorem C18_loc_records :
     (∀ (fs : Files) (t : TokInfo),
         locRecord fs (finalize (passThrough fs t))
-          = ((getFile fs t.file).fileNo, t.lineNo + (getFile fs t.file).lineDelta) ∧
+          = ((getFile fs t.file).fileNo, t.lineNo + deltaAt (getFile fs t.file) t.lineNo) ∧
         (locRecord fs (finalize (passThrough fs t))).2 = (diagPrefix fs (finalize (passThrough fs t))).2) ∧
     (∀ (fs : Files) (i : Nat),
         (getFile fs (.synth i)).fileNo = (getFile fs (.input i)).fileNo ∧
@@ -305,15 +493,53 @@ example : fileTable (enterAll [] ["a.h", "t.c", "b.h", "a.h"]) = [(1, "a.h"), (2
 
 /-- **C18 (macro expansion).**  A token copied out of a macro body gets the invoking token as `origin`; `__LINE__` and
     `__FILE__` walk the chain to its end, so through any nesting of expansions they are computed from the OUTERMOST
-    invocation token (`line_no` of that token + the current `line_delta` of its file; `display_name` of its file).
-    A token synthesised by `##`, `#` or a builtin macro takes the `line_no` of its template token. -/
+    invocation token (`line_no` of that token + the delta of the directive in force at THAT token's line; the display name
+    in force there) — exactly what the invocation token itself is given when it is passed on, so `__LINE__` always equals
+    the final line of its invocation token.  A token synthesised by `##`, `#` or a builtin macro takes the `line_no` of its
+    template token, lives in a fresh `File` without markers and is never shifted. -/
 theorem C18_macro_origin (fs : Files) (body : TokInfo) (m : Tok) (t : TokInfo) :
     lineMacro fs (expandBodyTok body m) = lineMacro fs m ∧
     fileMacro fs (expandBodyTok body m) = fileMacro fs m ∧
-    lineMacro fs (.plain t) = t.lineNo + (getFile fs t.file).lineDelta ∧
-    fileMacro fs (.plain t) = (getFile fs t.file).displayName ∧
-    (synthTok t).lineNo = t.lineNo :=
-  ⟨rfl, rfl, rfl, rfl, rfl⟩
+    lineMacro fs (.plain t) = t.lineNo + deltaAt (getFile fs t.file) t.lineNo ∧
+    fileMacro fs (.plain t) = nameAt (getFile fs t.file) t.lineNo ∧
+    lineMacro fs (.plain t) = (finalize (passThrough fs t)).lineNo ∧
+    fileMacro fs (.plain t) = (finalize (passThrough fs t)).filename ∧
+    (synthTok t).lineNo = t.lineNo ∧
+    (finalize (passThrough fs (synthTok t))).lineNo = t.lineNo := by
+  refine ⟨rfl, rfl, rfl, rfl, rfl, rfl, rfl, ?_⟩
+  simp [finalize, passThrough, passThroughF, synthTok, getFile, newFile, deltaAt, lineMarkerAt]
+
+/-- **C18 (macro expansion, on the expansion model).**  In the model of `expand_macro` that C09 ties to `chibicc -E`
+    (`PP.expandMacro`: hide sets, argument collection, substitution, pasting, stringizing), whenever a token `tok` is expanded:
+    `__LINE__` becomes the number `originLine tok` (the line of the token at the end of `tok`'s origin chain, `tok`'s own line
+    if it came from the file), placed on that line; `__FILE__` a string on that line; and for an object-like or function-like
+    macro every token of the substituted body gets `origin = originLine tok`, hence reports `originLine tok` again — by
+    induction, `__LINE__` at any depth of nested expansion is the line of the outermost invocation token, which is the input
+    `Ev.lineMac off` of the position model above. -/
+theorem C18_macro_origin_pp (lx : String → PP.LexOne) (pp : PP.PreExpand) (st st' : PP.St) (tok : PP.Tok)
+    (rest out : List PP.Tok) (h : PP.expandMacro lx pp st tok rest = .ok (some (out, st'))) :
+    (PP.findMacro st.defs tok = some (.builtin .line) →
+        out = PP.newNumToken (PP.originLine tok) (PP.originLine tok) :: rest) ∧
+    (PP.findMacro st.defs tok = some (.builtin .file) →
+        out = PP.newStrToken st.file (PP.originLine tok) :: rest) ∧
+    ((∃ mb, PP.findMacro st.defs tok = some (.obj mb)) ∨ (∃ ps va mb, PP.findMacro st.defs tok = some (.fn ps va mb)) →
+        ∃ (body rest' : List PP.Tok), (∀ b ∈ body, b.origin = some (PP.originLine tok) ∧ PP.originLine b = PP.originLine tok) ∧
+          out.map (·.origin) = (body ++ rest').map (·.origin)) ∧
+    (tok.origin = none → PP.originLine tok = tok.line) := by
+  obtain ⟨h1, h2, h3⟩ := pp_expandMacro_origin lx pp st st' tok rest out h
+  refine ⟨h1, h2, fun hx => ?_, pp_originLine_plain tok⟩
+  obtain ⟨body, rest', hb, ho⟩ := h3 hx
+  exact ⟨body, rest', fun b hbm => ⟨hb b hbm, pp_originLine_of_origin b tok (hb b hbm)⟩, ho⟩
+
+/-- non-vacuity, end to end on the expansion model: `A` on line 7 with `#define A f(B)`, `#define B __LINE__`, `#define f(x) x x`
+    (defined on other lines) expands to `7 7`, both tokens on line 7 -/
+example : (PP.expand 50 [("A", .obj [{ kind := .ident, text := "f", line := 1 }, { kind := .punct, text := "(", line := 1 },
+                                     { kind := .ident, text := "B", line := 1 }, { kind := .punct, text := ")", line := 1 }]),
+                         ("B", .obj [{ kind := .ident, text := "__LINE__", line := 2 }]),
+                         ("f", .fn ["x"] none [{ kind := .ident, text := "x", line := 3 }, { kind := .ident, text := "x", line := 3 }]),
+                         ("__LINE__", .builtin .line)]
+            [{ kind := .ident, text := "A", line := 7, atBol := true }]).map (·.map fun t => (t.text, t.line))
+    = .ok [("7", 7), ("7", 7)] := by decide
 
 /-- `include_file` splices token lists; no line number changes (each file was numbered from its own text) -/
 theorem C18_include_keeps_numbers (included rest : List TokInfo) :
